@@ -109,6 +109,8 @@ func runC54(c *eng.Ctx) {
 		}
 		c.Check("R2", T, fmt.Sprintf("%s has ≥1 forwarded method besides Commit/Rollback", s.iface), n >= 1, "", fmt.Sprint(n))
 	}
+	c.SiblingsEqual("R1", "storage:fanoutAppender.Commit", "storage:fanoutAppenderV2.Commit", nil, nil)
+	c.SiblingsEqual("R1", "storage:fanoutAppender.Rollback", "storage:fanoutAppenderV2.Rollback", nil, nil)
 	// ---- R3 queriers ----
 	for _, s := range []struct{ fn, method, ctor, iface string }{
 		{"storage:fanout.Querier", "Querier", "storage:NewMergeQuerier", "storage:Querier"},
